@@ -3,12 +3,8 @@
        used to carry is repaired in /repo).
    (2) The recorded finding classes of property C19 as decidable predicates on a query, defined
        through the transcribed analyses of the optimizer (Model/ConstFold.v, Model/Pushdown.v).
-   Definitions only.  Classes (known_findings.d/C19.json):
-     1 (fixed) projection fast path   2 SELECT * over a join   3 expression item over a join
-     4 push past invisible refs  5 join condition lost after a push to the right input
-     6 WHERE under an outer join 7 RIGHT / FULL unmatched rows projected by name
-     8 ON residual dropped by the hash join                    9 join nested in a join
-     10 hash join keys -0.0 / 0.0 *)
+   Definitions only.  Classes (known_findings.d/C19.json): 1-8 and 10 are fixed in /repo,
+   9 (join nested in a join) is open. *)
 From Coq Require Import ZArith List Bool.
 From TV Require Import Model.SqlSpec Model.QuerySpec Model.ConstFold Model.Pushdown.
 Import ListNotations.
@@ -46,112 +42,14 @@ Definition and_list (l : list expr) : option expr := match l with [] => None | x
 Definition impl_single (d : db) (q : query) : list orow := q_out d q.
 
 (* ------------------------------------------------------------------ (2) classes of join queries *)
-(* positions of the concatenated row of a two-table join that carry the same column NAME as
-   position c (names are positions inside the table: id, c1, c2 ..) *)
-Definition name_of (wl : nat) (c : nat) : nat := if Nat.ltb c wl then c else (c - wl)%nat.
-Definition same_name_cols (wl wr n : nat) : list nat :=
-  (if Nat.ltb n wl then [n] else []) ++ (if Nat.ltb n wr then [(wl + n)%nat] else []).
-Fixpoint names_consistent (wl wr : nat) (seen rest : list nat) : bool :=
-  match rest with
-  | [] => true
-  | c :: rest' =>
-      let n := name_of wl c in
-      let occ := length (filter (fun d => Nat.eqb (name_of wl d) n) seen) in
-      match nth_error (same_name_cols wl wr n) occ with
-      | Some c' => Nat.eqb c' c
-      | None => false
-      end && names_consistent wl wr (seen ++ [c]) rest'
-  end.
-
-Definition two_sided (wl : nat) (ij : nat * nat) : bool := negb (Bool.eqb (Nat.ltb (fst ij) wl) (Nat.ltb (snd ij) wl)).
-Definition is_two_sided_eq (wl : nat) (e : expr) : bool :=
-  match col_col_eq e with Some ij => two_sided wl ij | None => false end.
-
-(* JoinConditionExtractionRule: a cross join under a filter becomes an inner join on the
-   two-sided column equalities among the filter's conjuncts; (condition, remaining filter) *)
-Definition extract (k : jkind) (on : expr) (wl : nat) (filt : option expr) : option expr * option expr :=
-  match k with
-  | JCross =>
-      match filt with
-      | None => (None, None)
-      | Some p =>
-          let conj := flatten_and p in
-          let eqs := filter (is_two_sided_eq wl) conj in
-          let rest := filter (fun c => negb (is_two_sided_eq wl c)) conj in
-          match eqs with [] => (None, Some p) | _ => (and_list eqs, and_list rest) end
-      end
-  | _ => (Some on, filt)
-  end.
-
-Definition on_residual (wl : nat) (cond : expr) : bool :=
-  let conj := flatten_and cond in
-  let keys := flat_map (fun c => match col_col_eq c with Some ij => [ij] | None => [] end) conj in
-  match keys with
-  | [] => false
-  | _ => Nat.ltb (length keys) (length conj) || existsb (fun ij => negb (two_sided wl ij)) keys
-  end.
-
-(* hash joins hash the bit pattern of a key: -0.0 and 0.0 (or the integer 0) compare equal but
-   land in different buckets.  Class 10: a two-sided key pair whose two columns hold both kinds
-   of zero. *)
-Definition zero_kind (v : value) : Z :=
-  match v with
-  | VFloat b => if b =? 2 ^ 63 then 2 else if b =? 0 then 1 else 0
-  | VInt z => if z =? 0 then 1 else 0
-  | _ => 0
-  end.
-Definition col_has (t : table) (c : nat) (k : Z) : bool :=
-  existsb (fun r => match nth_error r c with Some v => zero_kind v =? k | None => false end) t.
-Definition neg_zero_key (wl : nat) (L R : table) (cond : expr) : bool :=
-  existsb (fun ij =>
-             let a := if Nat.ltb (fst ij) wl then fst ij else snd ij in
-             let b := ((if Nat.ltb (fst ij) wl then snd ij else fst ij) - wl)%nat in
-             two_sided wl ij &&
-             ((col_has L a 2 && col_has R b 1) || (col_has L a 1 && col_has R b 2)))
-          (flat_map (fun c => match col_col_eq c with Some ij => [ij] | None => [] end) (flatten_and cond)).
-
-Definition join2_class (d : db) (q : query) (k : jkind) (l r : from) (on : expr) : Z :=
-  let wl := from_width d l in
-  let wr := from_width d r in
-  let '(cond, filt) := extract k on wl (effective_where (q_where q)) in
-  let pushed := match filt with Some f => push_decision wl f | None => PStay end in
-  let blind := match filt, pushed with
-               | Some f, PLeft => snd (all_sides wl f)
-               | Some f, PRight => fst (all_sides wl f)
-               | _, _ => false
-               end in
-  let right_cond := match pushed, cond, k with
-                    | PRight, Some _, (JCross | JInner) => true
-                    | _, _, _ => false
-                    end in
-  let outer_where := match k, filt, pushed with
-                     | JLeft, Some _, PLeft => false
-                     | JRight, Some _, PRight => false
-                     | (JLeft | JRight | JFull), Some _, _ => true
-                     | _, _, _ => false
-                     end in
-  let right_names := match k with
-                     | JRight | JFull =>
-                         if q_star q then false
-                         else match cols_of (q_items q) with Some cs => negb (names_consistent wl wr [] cs) | None => false end
-                     | _ => false
-                     end in
-  let residual := match cond with Some c => on_residual wl c | None => false end in
-  let negzero := match cond with Some c => neg_zero_key wl (eval_from d l) (eval_from d r) c | None => false end in
-  if blind then 4 else if right_cond then 5 else if outer_where then 6 else if right_names then 7
-  else if residual then 8 else if negzero then 10 else 0.
-
+(* Classes 2-8 and 10 (SELECT * over a join, expression items, blind / outer-join pushdown, join
+   condition lost by reordering, RIGHT / FULL unmatched rows projected by name, hash join residual,
+   hash join -0.0 / 0.0) are repaired in /repo (commits b0661ca, 9cb158a, 2cb4862, 0005072, 07d36f7,
+   5934993, 755317f): their witnesses must now satisfy the property.  One class is open:
+   9 = a join whose input is itself a join (executed by separate, simplified code). *)
 Definition q_class (d : db) (q : query) : Z :=
   match q_from q with
   | FTab _ => 0
-  | FJoin k l r on =>
-      if q_star q then 2
-      else match cols_of (q_items q) with
-           | None => 3
-           | Some _ =>
-               match l, r with
-               | FTab _, FTab _ => join2_class d q k l r on
-               | _, _ => 9
-               end
-           end
+  | FJoin _ (FTab _) (FTab _) _ => 0
+  | FJoin _ _ _ _ => 9
   end.
